@@ -263,6 +263,7 @@ func (pipeline *IncrementalPipeline) sync(job *job, ctx context.Context) (int, e
 							res := presult{}
 							if ferr := verifhook.FaultOn(runner, "transform.batch", lentities); ferr != nil {
 								workResults[workId] = presult{err: ferr}
+								verifhook.Point(runner, "transform.worker.done")
 								wg.Done()
 								return
 							}
@@ -278,6 +279,7 @@ func (pipeline *IncrementalPipeline) sync(job *job, ctx context.Context) (int, e
 								res.err = e
 							}
 							workResults[workId] = res
+							verifhook.Point(runner, "transform.worker.done")
 							wg.Done()
 						}
 
